@@ -77,8 +77,18 @@ def result_tests(f, P, call_ins):
             continue
         c, pol = peel_cond(P.expr(t.ops[0]))
         c = strip_casts(c)
-        tt, ft = t.extra['targets'] if pol else t.extra['targets'][::-1]
-        if c[0] == 'icmp':
+        conds = [(c, pol)]
+        if c[0] == 'phi' and c[2].block is b:
+            # materialised short-circuit (`bool bad = a || r != 0; if (bad)`): the non-constant inputs of the phi
+            # are tests in their own right, decided on the same branch
+            conds = []
+            for v, src in c[2].extra['incoming']:
+                if v[0] != 'int':
+                    c2, p2 = peel_cond(P.expr(v))
+                    conds.append((strip_casts(c2), pol == p2))
+        for c, pol in conds:
+          tt, ft = t.extra['targets'] if pol else t.extra['targets'][::-1]
+          if c[0] == 'icmp':
             x, y = strip_casts(c[2]), strip_casts(c[3])
             pred = c[1]
             if x[0] == 'const' and y[0] != 'const':
@@ -87,7 +97,7 @@ def result_tests(f, P, call_ins):
                         'uge': 'ule', 'ule': 'uge'}.get(pred, pred)
             if is_res(x) and y[0] in ('const', 'null'):
                 out.append((b, pred, y[1] if y[0] == 'const' else 0, tt, ft))
-        elif is_res(c):
+          elif is_res(c):
             out.append((b, 'ne', 0, tt, ft))
     return out
 
@@ -114,7 +124,10 @@ def must_reach_call(f, start_block, names, stop_at_ret=True):
     if start_block in blocks:
         return True
     rets = [b.name for b in f.blocks.values() if b.term.op == 'ret']
-    r = cfg.reachable(f, start_block, removed_blocks=blocks)
+    # constant-phi edge threading: `bool bad = a || b; if (bad) fail();` -- the edge that carries `true` into the
+    # phi continues on the true side of the branch
+    sm, _ = cfg.threaded_successors(f)
+    r = cfg.reachable(f, start_block, removed_blocks=blocks, succ_fn=lambda b: sm.get(b, []))
     return not any(x in r for x in rets)
 
 
@@ -149,3 +162,42 @@ def global_ints(prog, unit, name):
     from irdb import init_ints
     g = prog.glob(unit, name)
     return init_ints(g.init)
+
+
+def value_dispatch(f, P, is_scrutinee):
+    """A dispatch on the value of one expression, written as a `switch` or as a chain of `if (x == K) ... else if`:
+    returns (cases {K: target block}, default target block, scrutinee expr, anchor insn) or None."""
+    from prov import cmp_norm
+    for i in f.insns():
+        if i.op == 'switch':
+            sv = strip_casts(P.expr(i.ops[0]))
+            if is_scrutinee(sv):
+                return dict(i.extra['cases']), i.extra['default'], sv, i
+    # chain of equality tests
+    tests = {}
+    for b in f.blocks.values():
+        t = b.term
+        if t.op == 'br' and len(t.extra['targets']) == 2:
+            c, pol = peel_cond(P.expr(t.ops[0]))
+            cn = cmp_norm(c)
+            if cn and cn[0] in ('eq', 'ne') and cn[2][0] == 'const' and is_scrutinee(strip_casts(cn[1])):
+                eq_t = t.extra['targets'][0] if (cn[0] == 'eq') == pol else t.extra['targets'][1]
+                ne_t = t.extra['targets'][1] if (cn[0] == 'eq') == pol else t.extra['targets'][0]
+                tests[b.name] = (cn[2][1], eq_t, ne_t, t, strip_casts(cn[1]))
+    if not tests:
+        return None
+    # the chain: a test block whose not-equal successor is the next test block; default = last not-equal target
+    heads = [bn for bn in tests if not any(tests[o][2] == bn for o in tests)]
+    if len(heads) != 1:
+        return None
+    cases = {}
+    bn = heads[0]
+    anchor = tests[bn][3]
+    scr = tests[bn][4]
+    seen = set()
+    while bn in tests and bn not in seen:
+        seen.add(bn)
+        k, eq_t, ne_t, t, _ = tests[bn]
+        cases.setdefault(k, eq_t)
+        bn = ne_t
+    return cases, bn, scr, anchor
